@@ -1,6 +1,7 @@
 """Client for the rbmon worker (the real rusty-basic pipeline with hooks enabled)."""
 import json
 import os
+import resource
 import select
 import subprocess
 import time
@@ -20,8 +21,9 @@ class Worker:
     {"died": <signal or code>} for the in-flight case; a watchdog expiry yields
     {"watchdog": True} (inconclusive, never a violation)."""
 
-    def __init__(self, profile="verif", stack_mb=8, scratch=None):
+    def __init__(self, profile="verif", stack_mb=8, scratch=None, mem_mb=None):
         self.profile = profile
+        self.mem_mb = mem_mb   # address-space limit of the worker process: an allocation beyond it aborts the worker ("died")
         self.stack_mb = stack_mb
         self.scratch = scratch
         self.p = None
@@ -40,6 +42,7 @@ class Worker:
             stderr=subprocess.DEVNULL,
             env=env,
             bufsize=0,
+            preexec_fn=(lambda: resource.setrlimit(resource.RLIMIT_AS, (self.mem_mb << 20, self.mem_mb << 20))) if self.mem_mb else None,
         )
         self.buf = b""
 
